@@ -198,6 +198,8 @@ def gen_rule_case(rng, rules=ALL_RULES, *, max_c=6, tiebreaks=TIEBREAKS, tie_bia
         elif rule == "Limited":
             cfg.update(k=m)
         return {"rule": rule, "kw": cfg, "profile": jp, "shape": shape}
+    if rule in ("DominatingSets", "CondoBorda"):
+        max_c = min(max_c, 6)  # ballot_fill enumerates every permutation of the unlisted candidates: keep the cost bounded
     allow_ties = rule in ("Plurality", "SNTV", "Borda", "RandomDictator", "BoostedRandomDictator") and rng.random() < 0.5
     if rule == "PluralityVeto":
         allow_ties = rng.random() < 0.3
